@@ -198,7 +198,7 @@ use super::*;
 //@item file=netconf/src/message/rpc/operation/get.rs kind=struct name=Builder sub=/ctx:=>pub ctx:;filter:=>pub filter:/
 pub open spec fn inv(b: Builder) -> bool { b.filter matches Some(f) ==> permitted_filter(f, b.ctx.server_capabilities.set@) }
 impl<'a> Builder<'a> {
-//@extract id=get_builder_filter file=netconf/src/message/rpc/operation/get.rs impl=/^impl Builder<'_>/ fn=filter rules=R1,R7,R16 r7map=option vis=pub
+//@extract id=get_builder_filter file=netconf/src/message/rpc/operation/get.rs impl=/^impl Builder<'_>/ fn=filter rules=R1,R7,R16,R17 r7map=option vis=pub
 //@contract
         requires inv(self),
         ensures
@@ -227,14 +227,14 @@ pub open spec fn inv(b: Builder) -> bool {
     &&& b.source.value matches Some(ds) ==> permitted_source(ds, b.ctx.server_capabilities.set@)
 }
 impl<'a> Builder<'a> {
-//@extract id=get_config_builder_source file=netconf/src/message/rpc/operation/get_config.rs impl=/^impl Builder<'_>/ fn=source rules=R1,R7,R16 r7map=result vis=pub
+//@extract id=get_config_builder_source file=netconf/src/message/rpc/operation/get_config.rs impl=/^impl Builder<'_>/ fn=source rules=R1,R7,R16,R17 r7map=result vis=pub
 //@contract
         requires inv(self),
         ensures
             res is Ok <==> permitted_source(source, self.ctx.server_capabilities.set@),                            // OBL:C09.get_config.source_iff_permitted
             res matches Ok(b) ==> inv(b) && b.source.value == Some(source) && b.filter == self.filter && b.ctx == self.ctx,  // OBL:C09.get_config.builder_holds_only_permitted
 //@end
-//@extract id=get_config_builder_filter file=netconf/src/message/rpc/operation/get_config.rs impl=/^impl Builder<'_>/ fn=filter rules=R1,R7,R16 r7map=option vis=pub
+//@extract id=get_config_builder_filter file=netconf/src/message/rpc/operation/get_config.rs impl=/^impl Builder<'_>/ fn=filter rules=R1,R7,R16,R17 r7map=option vis=pub
 //@contract
         requires inv(self),
         ensures
